@@ -164,12 +164,61 @@ def to_matrix(res, nrows):
     return keys, np.column_stack([np.asarray(d[k], dtype=float) for k in keys])
 
 
+_ARG_MUT = []  # caller-owned argument objects that a call of the current execution changed (drained by guarded())
+
+
+def freeze(obj):
+    """bit-exact, type-aware snapshot of an argument object (lists, dicts, numbers, arrays, Series)"""
+    if isinstance(obj, dict):
+        return ("dict", tuple((k, freeze(v)) for k, v in obj.items()))
+    if isinstance(obj, (list, tuple)):
+        return (type(obj).__name__, tuple(freeze(v) for v in obj))
+    if isinstance(obj, np.ndarray):
+        return ("ndarray", str(obj.dtype), obj.shape, obj.tobytes())
+    if hasattr(obj, "to_numpy") and hasattr(obj, "index"):
+        return ("series", freeze(obj.to_numpy()), freeze(np.asarray(obj.index)))
+    if isinstance(obj, float):
+        return ("float", obj.hex())
+    return (type(obj).__name__, repr(obj))
+
+
+def invoke(fn, data, state, kwargs):
+    """call the transform with FRESH argument objects (a deep copy of kwargs per call, so that no execution can
+    influence another even when the implementation edits its arguments) and check that the objects the caller handed
+    over (x, knots list, bounds, ...) are bit-identical afterwards"""
+    kw = copy.deepcopy(kwargs)
+    before = (freeze(data), freeze(kw))
+    try:
+        return fn(data, _state=state, **kw)
+    finally:
+        after = (freeze(data), freeze(kw))
+        if after != before:
+            which = "x" if after[0] != before[0] else ", ".join(k for k in kwargs if freeze(kw[k]) != freeze(kwargs[k]))
+            _ARG_MUT.append({"mutated": which, "before": repr(kwargs)[:300], "after": repr(kw)[:300]})
+
+
+def guarded(drv, name):
+    """wrap a driver: every caller-owned argument mutation seen during the execution becomes a violation"""
+    def wrapped(c, ctx, col):
+        del _ARG_MUT[:]
+        try:
+            drv(c, ctx, col)
+        finally:
+            for m in _ARG_MUT[:1]:
+                col.violation("%s :: choices=%r :: caller-owned argument %s changed by the call" % (name, list(c.trace), m["mutated"]),
+                              dict(m, repro="k = [1.0]; bs(x, knots=k, _state={}); print(k)  # must still be [1.0]"),
+                              sig="caller-argument-mutated")
+            del _ARG_MUT[:]
+    wrapped.__name__ = drv.__name__
+    return wrapped
+
+
 def call(fn, x, state, kwargs):
     """('OK', keys, matrix) | ('ValueError', msg) | ('ESCAPE', repr)"""
     xv = np.array([fl(v) for v in x], dtype=float)
     try:
         with np.errstate(all="ignore"):
-            res = fn(xv, _state=state, **kwargs)
+            res = invoke(fn, xv, state, kwargs)
     except ValueError as e:
         return ("ValueError", str(e))
     except Exception as e:  # noqa
@@ -969,7 +1018,7 @@ def make_container(kind, vals):
 def call_raw(fn, data, n, state, kwargs):
     try:
         with np.errstate(all="ignore"):
-            res = fn(data, _state=state, **kwargs)
+            res = invoke(fn, data, state, kwargs)
     except ValueError as e:
         return ("ValueError", str(e))
     except Exception as e:  # noqa
@@ -1056,6 +1105,91 @@ def drv_container(c, ctx, col):
                                                          float64=base2[2].tolist() if base2[0] == "OK" else base2[:2],
                                                          container=got2[2].tolist() if got2[0] == "OK" else got2[:2]),
                           sig="container-changes-values")
+
+
+# ---------------------------------------------------------------------------
+# one caller-owned knots list used by several fresh fits (direct calls, two terms of one formula, two model_matrix calls)
+
+def drv_shared(c, ctx, col):
+    import pandas as pd
+    from formulaic import model_matrix
+
+    kind = c.pick(["bs", "cr", "cc"])
+    degree = c.pick(ctx["degrees"]) if kind == "bs" else None
+    extrap = c.pick(EXTRAP)
+    x = choose_multiset(c, G, ctx["max_len"])
+    if len(set(x)) < 2:
+        raise Skip()
+    lb, ub = min(x), max(x)
+    inner = c.pick(knot_choices([g for g in G if lb < g < ub], kind == "bs"))
+    if not inner:
+        raise Skip()
+    z = list(reversed(x))
+    klist = [float(k) for k in inner]          # ONE list object, owned by the caller, handed to every fit below
+    original = list(klist)
+    opts = {"extrapolation": extrap}
+    if kind == "bs":
+        opts["degree"] = degree
+    osrc = ", ".join("%s=%r" % kv for kv in opts.items())
+    key = "shared-knots :: %s(., knots=k, %s) k=%s x=%s" % (kind, osrc, showx(inner), showx(x))
+    detail = {"x": [fl(v) for v in x], "k": original,
+              "repro": "k = %r; f(x, knots=k, %s, _state={}); f(x, knots=k, %s, _state={})  # second fit must equal the first; k unchanged"
+                       % (original, osrc, osrc)}
+    col.sample({"transform": kind, "k": original, "x": showx(x), "options": opts})
+    fn = TRANSFORMS[kind]
+    cyclic = kind == "cc"
+    if kind == "bs":
+        t = (lb,) * (degree + 1) + tuple(inner) + (ub,) * (degree + 1)
+        ref = {tuple(v): bs_want(t, degree, extrap, False, tuple(v))[0] for v in (x, z)}
+    else:
+        t = tuple(sorted(set((lb, ub) + tuple(inner))))
+        ref = {tuple(v): cubic_want(t, cyclic, extrap, tuple(v))[0] for v in (x, z)}
+    col.interesting()
+
+    def bad(name, M, v):
+        W = ref[tuple(v)]
+        if M is None or M.shape != W.shape or not mats_close(M, W):
+            col.violation("%s :: %s" % (key, name), dict(detail, fit=name, got=None if M is None else M.tolist(), want=W.tolist(),
+                                                       k_now=list(klist)), sig="shared-argument-later-fit-differs")
+            return True
+        return False
+
+    # -- direct calls: three fresh fits (fresh state each) from the same list object
+    for name, v in (("direct fit 1 (x)", x), ("direct fit 2 (z = x reversed)", z), ("direct fit 3 (x)", x)):
+        try:
+            with np.errstate(all="ignore"):
+                res = fn(np.array([float(a) for a in v]), knots=klist, _state={}, **opts)
+            M = to_matrix(res, len(v))[1]
+        except Exception as e:  # noqa
+            col.violation("%s :: %s" % (key, name), dict(detail, error="%s: %s" % (type(e).__name__, str(e)[:120])),
+                          sig="shared-argument-later-fit-differs")
+            return
+        if bad(name, M, v):
+            return
+    # -- two terms of one formula, and a second model_matrix call, all reading the same context variable k
+    formula = "%s(x, knots=k, %s) + %s(z, knots=k, %s) - 1" % (kind, osrc, kind, osrc)
+    data = pd.DataFrame({"x": [float(a) for a in x], "z": [float(a) for a in z]})
+    ncol = ref[tuple(x)].shape[1]
+    for name in ("model_matrix call 1", "model_matrix call 2"):
+        try:
+            with np.errstate(all="ignore"):
+                A = np.asarray(model_matrix(formula, data, context={"k": klist}), dtype=float)
+        except Exception as e:  # noqa
+            col.violation("%s :: %s" % (key, name), dict(detail, formula=formula, error="%s: %s" % (type(e).__name__, str(e)[:160])),
+                          sig="shared-argument-later-fit-differs")
+            return
+        if A.shape[1] != 2 * ncol:
+            col.violation("%s :: %s" % (key, name), dict(detail, formula=formula, columns=A.shape[1], want_columns=2 * ncol, k_now=list(klist)),
+                          sig="shared-argument-later-fit-differs")
+            return
+        if bad(name + ", term on x", A[:, :ncol], x) or bad(name + ", term on z", A[:, ncol:], z):
+            return
+    if freeze(klist) != freeze(original):
+        col.violation(key + " :: k after the fits", dict(detail, k_now=list(klist)), sig="caller-argument-mutated")
+
+
+for _n in ("drv_bs", "drv_cubic", "drv_formula", "drv_container", "drv_shared"):
+    globals()[_n] = guarded(globals()[_n], _n[4:])
 
 
 # ---------------------------------------------------------------------------
@@ -1165,6 +1299,10 @@ def subchecks(tier, seed):
                     "x and bounds": ["explicit bounds 1/2..3 and 0..4: x = sorted multisets of 2..3 symbols of "
                                      "{-1,0,1/2,1,3/2,2,3,4,5,null}"], "df": "degree..degree+3"}),
     ] if quick else []) + [
+        Sub("shared-arguments", drv_shared, {"degrees": [0, 3] if quick else [0, 1, 2, 3, 5], "max_len": 2 if quick else 3}, shard_depth=3,
+            bounds={"transforms": "bs | cr | cc", "knots": "every non-empty subset of <= 2 interior grid points (+ doubled for bs), ONE list object",
+                    "fits": "3 direct fresh fits, 2 terms of one formula, 2 model_matrix calls", "x": "sorted multisets of 2..%d grid points" % (2 if quick else 3),
+                    "extrapolation": EXTRAP}),
         Sub("formula-path", drv_formula, {"max_len": fl_len}, shard_depth=2,
             bounds={"terms": ["%s(x, %s)" % (a, ", ".join("%s=%r" % kv for kv in k.items())) for a, k in FORMULA_TERMS],
                     "extrapolation": EXTRAP, "x": "sorted multisets of 2..%d grid symbols" % fl_len,
